@@ -217,13 +217,17 @@ def get_model(
             right_asset.type)
 
         if not assoc:
-            logger.error(
-                'Failed to find ("%s", "%s", "%s", "%s")'
-                'association in language specification!',
+            # The query pairs every relationship from a to b with every
+            # relationship from b to a. When the two assets are linked by
+            # more than one association most of these pairs do not belong
+            # together, they are not an error.
+            logger.debug(
+                'No ("%s", "%s", "%s", "%s") association in the language '
+                'specification, skipping this pair of relationships.',
                 left_asset.type, right_asset.type,
                 left_field, right_field
             )
-            return None
+            continue
 
         logger.debug('Found "%s" association.', assoc.name)
 
